@@ -125,7 +125,7 @@ Proof. exact refuted_F20k. Qed.
 Print Assumptions C20_refuted_F20k.
 
 Example C20_F20k_second_schema :
-  build_keys [w_a_b; w_Pet] = Some [([65;98], 0%nat); (w_Pet, 1%nat); (w_a_b, 0%nat)]
+  build_keys [w_a_b; w_Pet] = None
   \/ build_keys [w_a_b; w_Pet] = Some [([65;66], 0%nat); (w_Pet, 1%nat)].
 Proof. exact F20k_second_schema. Qed.
 Print Assumptions C20_F20k_second_schema.
